@@ -107,6 +107,8 @@ type e1 struct {
 	conn       *drpcconn.Conn
 	sharedMeta map[string]string // the application's long-lived metadata map (style 1)
 	byzP       *byzProxy
+	serveSim   time.Duration // simulated time at which Serve/ServeOne returned
+	lastHRetSim time.Duration // simulated time at which a handler last returned
 	mdctx      map[int]context.Context // per task: the metadata context the next derived call starts from (style 3)
 	cli        drpc.Conn // what client scripts call: the connection itself, or a pool conn (pooled family)
 	pooled     *pooledState
@@ -265,8 +267,9 @@ func (x *e1) setup() {
 	}
 
 	srv := drpcserver.NewWithOptions(mux, drpcserver.Options{
-		Manager: x.managerOptions(c.SoftS),
-		Log:     func(err error) { x.srvLog = append(x.srvLog, errStr(err)) },
+		Manager:      x.managerOptions(c.SoftS),
+		Log:          func(err error) { x.srvLog = append(x.srvLog, errStr(err)) },
+		CollectStats: c.Stats,
 	})
 	x.srvCtx, x.srvCancel = context.WithCancel(context.Background())
 
@@ -275,7 +278,7 @@ func (x *e1) setup() {
 		x.lis.Push(x.sep)
 		x.rt.Spawn("srv", func() {
 			err := srv.Serve(x.srvCtx, x.lis)
-			x.serveDone, x.serveErr, x.serveStep = true, err, x.d.Step
+			x.serveDone, x.serveErr, x.serveStep, x.serveSim = true, err, x.d.Step, x.d.SimTime
 			for _, t := range x.rt.Tasks() {
 				// goroutines that have signalled completion and are merely returning are
 				// runnable; a goroutine that is still blocked has not been torn down
@@ -290,7 +293,7 @@ func (x *e1) setup() {
 	} else {
 		x.rt.Spawn("srv", func() {
 			err := srv.ServeOne(x.srvCtx, x.sep)
-			x.serveDone, x.serveErr, x.serveStep = true, err, x.d.Step
+			x.serveDone, x.serveErr, x.serveStep, x.serveSim = true, err, x.d.Step, x.d.SimTime
 			x.d.Record(taskName(), "serveone-return", errStr(err))
 		})
 	}
@@ -298,7 +301,7 @@ func (x *e1) setup() {
 	// the client connection is created by the first client task so that its
 	// manager goroutines are children of a task.
 	x.rt.Spawn("cli-init", func() {
-		x.conn = drpcconn.NewWithOptions(x.cep, drpcconn.Options{Manager: x.managerOptions(c.SoftC)})
+		x.conn = drpcconn.NewWithOptions(x.cep, drpcconn.Options{Manager: x.managerOptions(c.SoftC), CollectStats: c.Stats})
 		x.cli = x.conn
 		for j := 0; j < x.prog.NTasks; j++ {
 			j := j
@@ -400,6 +403,10 @@ func (x *e1) clientClose() {
 	x.call("Conn.Close", func() { err = x.conn.Close() })
 	x.closeDone++
 	x.d.Record(taskName(), "conn-close-return", errStr(err))
+	// when Close returns the transport has been closed (not "is being closed")
+	if x.cep != nil && !x.cep.IsClosed() {
+		x.viol("close-count", "Conn.Close returned before the transport was closed", "")
+	}
 }
 
 func connClosed(c *drpcconn.Conn) bool {
@@ -698,6 +705,8 @@ func (x *e1) execOp(sd *sideRec, op Op) {
 		x.d.Record(taskName(), who+".ctx-done", fmt.Sprintf("rpc%d", k))
 	case OpDelay:
 		x.delay("op-delay", op.Size)
+	case OpSleep:
+		verifsim.Sleep("harness:sleep", time.Duration(op.Size)*100*time.Millisecond)
 	case OpJoin:
 		for i := 0; i < op.Size && i < len(sd.auxDone); i++ {
 			sd.auxDone[i].Wait()
@@ -737,6 +746,7 @@ func (x *e1) handlerStart(r *rpcRec, ctx context.Context) {
 
 func (x *e1) handlerReturn(r *rpcRec, err error) {
 	r.HReturned, r.HRetStep = true, x.d.Step
+	x.lastHRetSim = x.d.SimTime
 	r.H.Ended = true
 	x.d.Record(taskName(), "handler-return", fmt.Sprintf("rpc%d %s", r.Spec.Idx, errStr(err)))
 }
@@ -759,6 +769,9 @@ func (x *e1) handleUnary(k int, ctx context.Context, in *Msg) (*Msg, error) {
 		out = &Msg{B: x.respBytes(r.Spec)}
 	case RetErr:
 		err = buildErr(r.Spec.HErr)
+		if r.Spec.RespToo {
+			out = &Msg{B: x.respBytes(r.Spec)}
+		}
 	}
 	x.handlerReturn(r, err)
 	return out, err
